@@ -41,6 +41,7 @@ type Case struct {
 	Channels   []string   `json:"channels"` // run: raw stdin files split
 	Chunks     []int      `json:"chunks"`   // stdin chunk sizes, cyclic; empty = one write
 	TrailingNL bool       `json:"trailing_newline"`
+	LeadingWS  string     `json:"leading_ws,omitempty"` // JSON white space in front of the stdin payload (a heredoc, echo " $X")
 	FileName   string     `json:"file_name"`
 	Split      []string   `json:"split,omitempty"` // channel of script, variables, balances, metadata in the "split" configuration
 	AbsPath    bool       `json:"abs_path"`
@@ -454,6 +455,7 @@ func executeRun(c Case, bin, dir string, res *Result) {
 			args = append([]string{"run", "--raw", whole}, flagArgs...)
 		case "stdin":
 			s := whole
+			s = c.LeadingWS + s
 			if c.TrailingNL {
 				s += "\n"
 			}
@@ -499,7 +501,7 @@ func executeRun(c Case, bin, dir string, res *Result) {
 				args = append(args, "--raw", "{"+strings.Join(rawParts, ",")+"}")
 			}
 			if len(stdinParts) > 0 {
-				stdin = []byte("{" + strings.Join(stdinParts, ",") + "}")
+				stdin = []byte(c.LeadingWS + "{" + strings.Join(stdinParts, ",") + "}")
 				args = append(args, "--stdin")
 			}
 			args = append(args, flagArgs...)
@@ -752,6 +754,9 @@ func genCase(r *rand.Rand) Case {
 		c.Chunks = []int{-2} // descriptor 0 is a socket
 	}
 	c.TrailingNL = r.IntN(2) == 0
+	if r.IntN(5) == 0 {
+		c.LeadingWS = core.Pick(r, []string{" ", "\n", "\t", "\r\n", "  \n  "})
+	}
 	return c
 }
 
